@@ -270,6 +270,17 @@ pub struct CallRec {
     pub parent_type: String,
     pub field: String,
     pub args: J,
+    /// `ResolveInfo::field_selections()`: start offset of each merged field's name, in order
+    /// (empty for list-item events)
+    pub sels: Vec<usize>,
+}
+
+/// start offsets of the names of a group of merged fields: identifies the field nodes
+pub fn selection_ids(fields: &[&apollo_compiler::executable::Field]) -> Vec<usize> {
+    fields
+        .iter()
+        .map(|f| f.name.location().map(|l| l.offset()).unwrap_or(usize::MAX))
+        .collect()
 }
 
 struct Timer {
@@ -393,7 +404,15 @@ fn on_resolve_field(shared: &Shared, obj_path: &str, type_name: &str, info: &Res
         parent_type: type_name.to_string(),
         field: info.field_name().to_string(),
         args,
+        sels: selection_ids(info.field_selections()),
     };
+    if info.field_definition().name.as_str() != info.field_name() {
+        g.discipline.push(format!(
+            "resolve_info_inconsistent: field_definition() is `{}` for field `{}`",
+            info.field_definition().name,
+            info.field_name()
+        ));
+    }
     g.event(|| format!("call {} {}.{} {}", rec.path, rec.parent_type, rec.field, rec.args));
     g.calls.push(rec);
     // The world generates values for the field as defined on the *concrete* object type (what a
@@ -458,6 +477,7 @@ fn log_item(shared: &Shared, path: &str) {
         parent_type: String::new(),
         field: "<list item>".into(),
         args: J::Null,
+        sels: vec![],
     });
 }
 
